@@ -111,6 +111,13 @@ func (packet *Packet) ReadFrom(ctx context.Context, reader io.Reader, timeout ti
 				break
 			}
 
+			if totalBytes == int64(packet.Header.Length) {
+				// The reader reported a failure together with the last
+				// bytes of the packet. The packet is complete, a
+				// persisting failure is reported again by the next read.
+				break
+			}
+
 			return totalBytes, fmt.Errorf("error reading body: %w", err)
 		}
 
